@@ -187,12 +187,19 @@ Definition astep (s : astate) (e : aevent) : option astate :=
       if (c =? host)%N || bool_decide (c ∈ aconn s) || pexists s c then None
       else
         let h := getp s host in
-        Some (AState (<[c := APeer pre 0 0 pre []]> (<[host := serve_store h]> (ap s)))
-                     (aconn s ++ [c])
-                     (match store h with
-                      | Some _ => push_link (alinks s) host c [host]
-                      | None => alinks s
-                      end))
+        match last (pending h) with
+        | Some o =>
+            (* repair of S26 (8b1d5d0): the host is still downloading the id: the snapshot hands on the
+               owner it was told to fetch from (the latest request), and serves nothing *)
+            Some (AState (<[c := APeer pre 0 0 pre []]> (ap s)) (aconn s ++ [c]) (push_link (alinks s) host c [o]))
+        | None =>
+            Some (AState (<[c := APeer pre 0 0 pre []]> (<[host := serve_store h]> (ap s)))
+                         (aconn s ++ [c])
+                         (match store h with
+                          | Some _ => push_link (alinks s) host c [host]
+                          | None => alinks s
+                          end))
+        end
   end.
 
 Fixpoint arun (s : astate) (tr : list aevent) : option astate :=
@@ -301,7 +308,10 @@ Definition sent1 (s : astate) (e : aevent) : nat :=
       | _ :: _ => if (dst =? host)%N then length (others src (aconn s)) else 0
       | [] => 0
       end
-  | AJoin _ _ => match pstore s host with Some _ => 1 | None => 0 end
+  | AJoin _ _ => match last (ppending s host) with
+                 | Some _ => 1
+                 | None => match pstore s host with Some _ => 1 | None => 0 end
+                 end
   | _ => 0
   end.
 (* an AReact1 step of p that ORIGINATES an announcement (a local change, not a relay, not a snapshot) *)
